@@ -265,8 +265,12 @@ def stamp_texts(ctx, case):
     third = ctx.choose([0, 1000001, 4294967295], 'third')
     mark = ctx.choose(['.', ','], 'mark')
     style = ctx.choose(['%d.%03d', '%7d.%03d', '%6d.%03d'], 'padding')
-    def line(u):
-        return ('[' + style % (u // 1000, u % 1000) + '] wl_display@1.sync()').replace('.', mark, 1)
+    # what a log collector puts in front of the program's line (journalctl -o short-monotonic, dmesg-style uptime, a console prefix): another
+    # bracketed clock. The message's time is the one libwayland printed, right in front of the message
+    prefix = ctx.choose(['', '[  812.404163] ', 'Jan 01 12:00:01 host prog[4123]: ', '[7.5] [info] '], 'collector_prefix')
+    only_on = ctx.choose(['all lines', 'not the first line'], 'prefixed') if prefix else 'all lines'
+    def line(u, k=1):
+        return (prefix if (k > 0 or only_on == 'all lines') else '') + ('[' + style % (u // 1000, u % 1000) + '] wl_display@1.sync()').replace('.', mark, 1)
     wl.Message.base_time = None
     got = []
 
@@ -274,7 +278,7 @@ def stamp_texts(ctx, case):
         def open_connection(self, time, cid, is_server): pass
         def close_connection(self, time, cid): pass
         def message(self, cid, m): got.append(m)
-    parse.into_sink(io.StringIO(''.join(line(u) + chr(10) for u in (first, this, third))), Output(False, True, RecStream(), RecStream()), Sink())
+    parse.into_sink(io.StringIO(''.join(line(u, k) + chr(10) for k, u in enumerate((first, this, third)))), Output(False, True, RecStream(), RecStream()), Sink())
     ctx.check('three lines, three messages', len(got) == 3)
     if len(got) == 3:
         ctx.check('first message is shown at 0', got[0].timestamp == 0)
